@@ -1073,7 +1073,11 @@ func runForced(kind string) (*streamResult, error) {
 		return nil, err
 	}
 	defer e.Close()
-	res := &streamResult{Scenario: "forced:" + kind, MaxM: 3, MaxB: 100000}
+	maxM := 3
+	if kind == "two-external-acks" {
+		maxM = 2
+	}
+	res := &streamResult{Scenario: "forced:" + kind, MaxM: maxM, MaxB: 100000}
 	topic, subName := "projects/p/topics/r", "projects/p/subscriptions/r"
 	pre, _ := e.dumpR(ctx)
 	e.Exec(ctx, &Op{Kind: "CreateTopic", Name: topic}, pre)
@@ -1088,12 +1092,16 @@ func runForced(kind string) (*streamResult, error) {
 		}
 		return nil
 	}
-	if err := publish(2); err != nil {
+	first := 2
+	if kind == "two-external-acks" {
+		first = 4 // two are sent, two wait for capacity
+	}
+	if err := publish(first); err != nil {
 		return nil, err
 	}
 	d0, _ := e.dumpR(ctx)
 	sub := d0.subByName(subName)
-	cl := &streamClient{out: map[uuid.UUID]int{}, maxM: 3, maxB: 100000}
+	cl := &streamClient{out: map[uuid.UUID]int{}, maxM: maxM, maxB: 100000}
 	conn := &scriptConn{in: make(chan *actions.MessageStreamRequest), closed: make(chan struct{}), cl: cl}
 	sctx, cancel := context.WithCancel(ctx)
 	defer cancel()
@@ -1101,7 +1109,7 @@ func runForced(kind string) (*streamResult, error) {
 	done := make(chan error, 1)
 	go func() { done <- ms.Go(sctx, conn) }()
 	dl := &directLink{conn, cancel, done}
-	if err := dl.flow(3, 100000); err != nil {
+	if err := dl.flow(maxM, 100000); err != nil {
 		return nil, err
 	}
 	waitSends := func(n int, d time.Duration) bool {
@@ -1156,7 +1164,7 @@ func runForced(kind string) (*streamResult, error) {
 					hold()
 				}
 			}
-		case "refresh-race":
+		case "refresh-race", "two-external-acks":
 			if k == KQuery && !after && strings.Contains(q, "`deliveries`.`id` IN") && strings.Contains(q, "`completed_at` IS NULL") {
 				hmu.Lock()
 				armed = false
@@ -1196,6 +1204,46 @@ func runForced(kind string) (*streamResult, error) {
 			cl.note("the nacked message was not fetched again while the reader was held (schedule not reached)")
 		}
 		close(release)
+	case "two-external-acks":
+		// both messages the client holds are acknowledged OUTSIDE the stream, the second while
+		// the stream's refresh of its pending set (triggered by the first) is reading: the
+		// second acknowledgement's wake-up must not be lost -- both slots are free afterwards
+		b := held[1]
+		cl.note("Acknowledge %s outside the stream; the refresher is held at its query", a.String()[:8])
+		cl.settle([]uuid.UUID{a})
+		d, _ := e.dumpR(ctx)
+		go e.Exec(ctx, &Op{Kind: "Ack", Name: subName, AckIDs: []string{a.String()}}, d)
+		select {
+		case <-blocked:
+		case <-time.After(3 * time.Second):
+			cl.note("the refresher's query was not seen (schedule not reached)")
+			close(release)
+			cl.mu.Lock()
+			res.Violations = append(res.Violations, cl.viol...)
+			res.Events = cl.events
+			cl.mu.Unlock()
+			return res, nil
+		}
+		cl.note("Acknowledge %s outside the stream while the refresher is held", b.String()[:8])
+		cl.settle([]uuid.UUID{b})
+		d, _ = e.dumpR(ctx)
+		if o, err := e.Exec(ctx, &Op{Kind: "Ack", Name: subName, AckIDs: []string{b.String()}}, d); err != nil || o.Resp.Kind == "err" {
+			close(release)
+			return nil, fmt.Errorf("second external ack: %v", err)
+		}
+		close(release)
+		if !waitSends(4, stallBound) {
+			cl.mu.Lock()
+			cl.viol = append(cl.viol, fmt.Sprintf("stall: limit 2 messages, both messages the client held were acknowledged outside the stream (the second while the stream was refreshing its pending set), 2 deliverable messages remain, but only %d of them was sent within %v",
+				len(cl.sends)-2, stallBound))
+			cl.mu.Unlock()
+		}
+		cl.mu.Lock()
+		res.Sends = len(cl.sends)
+		res.Violations = append(res.Violations, cl.viol...)
+		res.Events = cl.events
+		cl.mu.Unlock()
+		return res, nil
 	case "refresh-race":
 		cl.note("Acknowledge %s outside the stream; the refresher is held at its query", a.String()[:8])
 		cl.settle([]uuid.UUID{a})
@@ -1311,7 +1359,7 @@ func cmdStream(args []string) error {
 		tot["sends"] += ar.Sends
 		tot["violations"] += len(ar.Violations)
 	}
-	for _, k := range []string{"nack-refetch", "refresh-race"} {
+	for _, k := range []string{"nack-refetch", "refresh-race", "two-external-acks"} {
 		fr, err := runForced(k)
 		if err != nil {
 			return err
